@@ -223,3 +223,23 @@ def tiny_domains(max_size, values=((1, 1), (1, 2), (2, 1), (2, 2))):
     for n in range(0, max_size + 1):
         for combo in itertools.combinations_with_replacement(values, n):
             yield tuple((("p", p), ("q", q)) for p, q in combo)
+
+
+def eval_twice(q, world, inst, mode="query", predeclare=()):
+    """build once, evaluate the same query object twice; each observation is a sorted list of (row labels, count)"""
+    try:
+        obj, b = Q.build(q, world, inst, mode=mode, predeclare=predeclare)
+    except Exception as e:
+        return [exc_obs(e), exc_obs(e)]
+    sel = b.sel[q]
+    out = []
+    for _ in range(2):
+        try:
+            if q[2] == "entity":
+                rows = [(r,) for r in obj.evaluate()]
+            else:
+                rows = [tuple(r[s] for s in sel) for r in obj.evaluate()]
+            out.append(row_labels(rows))
+        except Exception as e:
+            out.append(exc_obs(e))
+    return out
